@@ -86,6 +86,16 @@ Proof.
     + inversion H; subst. exact E.
 Qed.
 
+Lemma shed_after_pipe t x : Subseq (pipe (shed_after t x)) (pipe x).
+Proof.
+  destruct x as [[p acts] out]. unfold shed_after.
+  destruct (w_dset p) as [[limit [|]]|]; try apply Subseq_refl.
+  destruct (shed_oldest _ t limit (w_queue p) out) as [q' out'] eqn:E. apply shed_oldest_subseq in E.
+  unfold pipe. simpl.
+  rewrite (map_app j_id (mb_of acts (w_aid p)) q'), (map_app j_id (mb_of acts (w_aid p)) (w_queue p)).
+  apply Subseq_app_head. exact E.
+Qed.
+
 (* (a) a new job enters at the END of the pipeline (or is shed); nothing is reordered *)
 Theorem enqueue_job_fifo : forall t p acts out j,
   Subseq (pipe (enqueue_job t (p, acts, out) j)) (pipe (p, acts, out) ++ [j_id j]).
@@ -93,7 +103,8 @@ Proof.
   intros t p acts out j. unfold enqueue_job.
   match goal with |- context [if ?b then _ else _] => destruct b end.
   - unfold pipe. rewrite <- (app_nil_r (map j_id _)) at 1. apply Subseq_app_head. constructor.
-  - destruct (w_curr p).
+  - eapply Subseq_trans; [apply shed_after_pipe|].
+    destruct (w_curr p).
     + destruct (next_non_expired t (w_queue p) (accept_ev j out)) as [[[o|] q'] out'] eqn:E.
       * apply next_non_expired_subseq in E. rewrite dispatch_job_pipe. simpl. unfold pipe.
         rewrite !map_app, <- app_assoc. apply Subseq_app_head.
@@ -102,13 +113,7 @@ Proof.
         rewrite dispatch_job_pipe. simpl. unfold pipe.
         rewrite !map_app, <- app_assoc. apply Subseq_app_head. simpl.
         apply Subseq_app_pre. apply Subseq_refl.
-    + assert (B : pipe (set_w_queue (w_queue p ++ [clear_port j]) p, acts, out) = pipe (p, acts, out) ++ [j_id j]).
-      { unfold pipe. simpl. rewrite !map_app. simpl. rewrite <- app_assoc. reflexivity. }
-      destruct (w_dset p) as [[limit [|]]|]; try (rewrite <- B; apply Subseq_refl).
-      destruct (shed_oldest _ t limit (w_queue p ++ [clear_port j]) (accept_ev j out)) as [q' out'] eqn:E.
-      apply shed_oldest_subseq in E. rewrite <- B. unfold pipe. simpl.
-      rewrite (map_app j_id (mb_of acts (w_aid p)) q'), (map_app j_id (mb_of acts (w_aid p)) (w_queue p ++ [clear_port j])).
-      apply Subseq_app_head. exact E.
+    + unfold pipe. simpl. rewrite !map_app. simpl. rewrite <- app_assoc. apply Subseq_refl.
 Qed.
 
 (* (b) a completion only advances the pipeline *)
